@@ -154,6 +154,52 @@ def ref_pipe(term, xs):
     return chunks, fin
 
 
+def ref_pipe_plain(term, xs):
+    """flat pipelines on an ORDINARY observable: as ref_pipe, but `first` / `take(n)` complete the stream with their last item,
+    so whatever a later stage emits "at the end" is emitted while that item is processed"""
+    chunks = [[x] for x in xs]
+    fin = []
+    end_at = None           # index of the source item with which the stream ends early (None: at source completion)
+    for st in term:
+        flat = [x for c in chunks for x in c] + fin
+        sc, sf = ref_stage(st, flat)
+        out = []
+        pos = 0
+        for c in chunks:
+            cur = []
+            for _ in c:
+                cur.extend(sc[pos])
+                pos += 1
+            out.append(cur)
+        nf = []
+        for _ in fin:
+            nf.extend(sc[pos])
+            pos += 1
+        tail = nf + sf
+        if end_at is not None:
+            out[end_at].extend(tail)
+            tail = []
+        if st[0] in ('first', 'take'):
+            n = 1 if st[0] == 'first' else st[1]
+            if n == 0:
+                raise NotCovered('take(0)')
+            seen = 0
+            for j, c in enumerate(out):
+                seen += len(c)
+                if seen >= n:
+                    if end_at is None or j < end_at:
+                        end_at = j
+                    for later in out[j + 1:]:
+                        if later:
+                            raise NotCovered('outputs after the end of the stream')
+                    break
+            else:
+                if st[0] == 'first' and seen + len(tail) == 0:
+                    raise NotCovered('first() of an empty sequence')
+        chunks, fin = out, tail
+    return chunks, fin
+
+
 def enc_chunks(chunks, fin):
     return [[{'i': enc(x)} for x in c] for c in chunks] + [[{'i': enc(x)} for x in fin]]
 
